@@ -849,6 +849,7 @@ impl XmlAttributeValue {
                 }
                 parser::Reference::Entity(v) => {
                     let entity = context.entity(v)?;
+                    check_entity_recursion(v, context, &mut vec![], &mut vec![])?;
                     // WFC: No External Entity References
                     if entity.borrow().system_identifier().is_some() {
                         return Err(error::Error::InvalidData(v.to_string()));
@@ -2371,6 +2372,7 @@ impl XmlElement {
                         }
                         parser::Reference::Entity(v) => {
                             let entity = context.entity(v)?;
+                            check_entity_recursion(v, context, &mut vec![], &mut vec![])?;
                             // WFC: Parsed Entity
                             if entity.borrow().notation_name().is_some() {
                                 return Err(error::Error::InvalidData(v.to_string()));
@@ -4317,6 +4319,34 @@ fn entity_value_from_name(name: &str, context: &Context, normalize: bool) -> err
         }
     }
     Ok(parsed)
+}
+
+/// WFC: No Recursion (and WFC: Entity Declared for references inside entity values).
+fn check_entity_recursion(
+    name: &str,
+    context: &Context,
+    path: &mut Vec<String>,
+    done: &mut Vec<String>,
+) -> error::Result<()> {
+    if done.iter().any(|v| v == name) {
+        return Ok(());
+    }
+
+    if path.iter().any(|v| v == name) {
+        return Err(error::Error::InvalidData(name.to_string()));
+    }
+
+    let entity = context.entity(name)?;
+    path.push(name.to_string());
+    for value in entity.borrow().values().unwrap_or_default() {
+        if let XmlEntityValue::Entity(v) = value {
+            check_entity_recursion(v, context, path, done)?;
+        }
+    }
+    path.pop();
+    done.push(name.to_string());
+
+    Ok(())
 }
 
 fn char_from_char10(value: &str) -> error::Result<char> {
